@@ -31,8 +31,10 @@ from lib import gen_net as gn
 from props import c01 as c01p
 
 ID = "C08"
-PROPS_FILES = ["Gama/Props/C08.lean", "Gama/Props/C08Solvers.lean", "Gama/Props/C08Net.lean"]
-LEAN_TARGETS = ["Gama.Props.C08", "Gama.Props.C08Solvers", "Gama.Props.C01.Spec", "Gama.Props.C08Net"]
+PROPS_FILES = ["Gama/Props/C08.lean", "Gama/Props/C08Solvers.lean", "Gama/Props/C08Net.lean",
+               "Gama/Props/C08SvdDecompose.lean"]
+LEAN_TARGETS = ["Gama.Props.C08", "Gama.Props.C08Solvers", "Gama.Props.C01.Spec", "Gama.Props.C08Net",
+                "Gama.Props.C08SvdDecompose"]
 DRIVERS = ["drv_ls", "drv_minx"]
 RULE = ("ls: free problems (defect>0; dense with planted dependent columns, levelling graphs incl. disconnected; unit / "
         "diagonal / banded SPD covariance) x up to 4 regularisation subsets that resolve the defect (exact rational "
@@ -60,15 +62,21 @@ LEVEL_TEXT = ("Lean 4 theorems (Props/C08.lean) about ANY two least-squares solu
               "left behind; another observation order renumbers it by a bijection), tied by harness/c08_minx.cpp (real "
               "LocalNetwork, friend probe) vs lean/Driver/MinX.lean on scripted histories (outlier removal, observation / "
               "point removal, re-linearisation); per-solver instances of the datum theorems (env, chol, gso, svd, Adj); "
-              "SVD::min_subset_x: minimal subset norm for any defect (certificate hypothesis) tied by an svd stream with "
-              "defect 2-4 and subsets of size exactly = defect.")
+              "SVD::min_subset_x: minimal subset norm for any defect, for the factors the model of SVD::svd returns "
+              "(Props/C08SvdDecompose.lean: no certificate; hypothesis = the returned singular values are 0 or above "
+              "tol*max W), tied by an svd stream with defect 2-4 and subsets of size exactly = defect; through LocalNetwork "
+              "for any two algorithms and two lists: C08_net_datum.")
 LEVEL_NOTE = ("Exact-arithmetic statements; IEEE rounding is outside. 'All distances and angles between adjusted points are "
               "the same' is proved to first order only (difference of the two solutions is a kernel vector = "
               "infinitesimal similarity); to printed precision after iteration it is checked by the network oracle, not "
               "proved. In Model/MinX.lean the set of revised observations and the numeric half of singular_coords "
               "(1 - |cos| < 1e-12) are a parameter (World) the theorems quantify over; the driver runs the structural part "
               "of LocalRevision and the generator avoids histories in which the numeric test could fire. The svd theorems "
-              "take the factorisation A = U W V' as a certificate (checked numerically per run by C01/C20).")
+              "no longer take the factorisation as a certificate: A = U W V', V'V = 1, U'U = 1 on kept columns are proved "
+              "for what Svd.decompose returns (C08_svd_decompose_subset_min_norm, C08_svd_decompose_datum); not proved: "
+              "convergence of the QR iteration (= decompose returns), rounding. Every per-solver instance carries its "
+              "solver's 'tested quantity is exactly 0 or above the tolerance' premise; the real kernels' absolute "
+              "tolerances under extreme weights are known findings (F22, C09-F2, C10-TINY).")
 TECHNIQUE = "Lean 4 proof (Mathlib matrices over an ordered field) + model/implementation correspondence + metamorphic oracles"
 MODELLED = c01p.MODELLED + ["gama-local's iteration of the linearisation and its text/XML output (observed, not modelled)"]
 ASSUMPTIONS = c01p.ASSUMPTIONS + ["network oracle: generated networks are well determined apart from the datum defect "
